@@ -8,6 +8,7 @@ oracle:         independent RFC sender (harness/gen_tls.py) → real tool → st
 import importlib
 
 import e2e
+import spec_suites
 import fw
 import tool
 
@@ -21,7 +22,11 @@ def one(job):
     logging.disable(logging.CRITICAL)
     seed, combos = job[:2]
     rng = random.Random(seed)
-    if len(job) > 2:      # a long history of tiny records: sequence numbers, RC4 position and CBC residue far from zero
+    if len(job) > 2 and job[2] == "rsa":
+        # the key log holds `RSA <client_random> <pre-master secret>` lines instead of CLIENT_RANDOM lines (up to TLS 1.2)
+        shapes = [dict(e2e.random_shape(rng, v), rsa_line=True) for _, v, _ in combos]
+        sc = e2e.Scenario(rng, combos, shapes=shapes)
+    elif len(job) > 2:      # a long history of tiny records: sequence numbers, RC4 position and CBC residue far from zero
         app = [[(rng.randrange(2), rng.randbytes(rng.randrange(0, 4))) for _ in range(rng.randrange(270, 400))]]
         sc = e2e.Scenario(rng, combos, app=app)
     else:
@@ -52,6 +57,13 @@ def jobs_for(ctx, scale=1):
             jobs.append((rng.getrandbits(48), [e2e.random_combo(rng)]))
         for _ in range(3 * scale):
             jobs.append((rng.getrandbits(48), [e2e.random_combo(rng)], "long"))
+    legacy = [c for c in combos if c[1] != "tls13"]
+    for v, sha384 in (("ssl3", 0), ("tls10", 0), ("tls11", 0), ("tls12", 0), ("tls12", 1)):      # pre-master lines: every version up to TLS 1.2
+        pool = [c for c in legacy if c[1] == v]
+        if sha384:
+            pool = [c for c in pool if spec_suites.info(spec_suites.R[c[0]])["mac"] == "SHA384"] or pool
+        for _ in range((1 if not ctx.thorough() else 12) * scale):
+            jobs.append((rng.getrandbits(48), [rng.choice(pool)], "rsa"))
     return jobs
 
 
@@ -70,7 +82,7 @@ def explore(ctx, scale=1):
         ctx.hist("class", "/".join(str(x) for x in cls[1:]))
         ctx.hist("cut", d["cut"])
         ctx.hist("ip", "v6" if d["v6"] else "v4")
-        for k in ("abbreviated", "hs_secrets", "group"):
+        for k in ("abbreviated", "hs_secrets", "group", "rsa_line"):
             if k in d["shape"]:
                 ctx.hist("shape." + k, d["shape"][k])
         ctx.hist("pad13", "pad13" in d["shape"])
